@@ -1,2 +1,202 @@
+/* ops_div.c — C02 operations: word-level division macros instantiated from the
+   repository headers, mpn division entry points, and the mpz division families. */
 #include "common.h"
-const op_t ops_div[] = { {NULL, NULL} };
+
+void out_residues(mp_srcptr p, mp_size_t n);
+
+/* ---- word level: the macros of gmp-impl.h, compiled here against /repo's headers ---- */
+static void op_invert_limb(int argc, char **argv)
+{ (void)argc; mp_limb_t d = arg_ul(argv[1]), di; invert_limb(di, d); outul(di); }
+static void op_preinv1(int argc, char **argv)
+{
+  (void)argc; mp_limb_t nh = arg_ul(argv[1]), nl = arg_ul(argv[2]), d = arg_ul(argv[3]), di, q, r;
+  invert_limb(di, d); udiv_qrnnd_preinv1(q, r, nh, nl, d, di); outul(q); outul(r);
+}
+static void op_preinv2(int argc, char **argv)
+{
+  (void)argc; mp_limb_t nh = arg_ul(argv[1]), nl = arg_ul(argv[2]), d = arg_ul(argv[3]), di, q, r;
+  invert_limb(di, d); udiv_qrnnd_preinv2(q, r, nh, nl, d, di); outul(q); outul(r);
+}
+static void op_invert_pi1(int argc, char **argv)
+{ (void)argc; mp_limb_t d1 = arg_ul(argv[1]), d0 = arg_ul(argv[2]), v; mpir_invert_pi1(v, d1, d0); outul(v); }
+static void op_3by2(int argc, char **argv)
+{
+  (void)argc; mp_limb_t n2 = arg_ul(argv[1]), n1 = arg_ul(argv[2]), n0 = arg_ul(argv[3]), d1 = arg_ul(argv[4]), d0 = arg_ul(argv[5]);
+  mp_limb_t v, q, r1, r0; mpir_invert_pi1(v, d1, d0);
+  udiv_qr_3by2(q, r1, r0, n2, n1, n0, d1, d0, v); outul(q); outul(r1); outul(r0);
+}
+
+/* ---- mpn level ---- */
+/* mpn_divrem_1 n N d : quotient value, remainder */
+static void op_divrem_1(int argc, char **argv)
+{
+  (void)argc; mp_size_t n = arg_l(argv[1]); mp_limb_t d = arg_ul(argv[3]);
+  mp_ptr np = gbuf_alloc(n), qp = gbuf_alloc(n);
+  parse_limbs(argv[2], np, n);
+  mp_limb_t r = mpn_divrem_1(qp, 0, np, n, d);
+  out_limbs(qp, n); outul(r);
+  if (!gbuf_ok(np, n) || !gbuf_ok(qp, n)) outs("REDZONE");
+  gbuf_free(np); gbuf_free(qp);
+}
+static void op_mod_1(int argc, char **argv)
+{
+  (void)argc; mp_size_t n = arg_l(argv[1]); mp_limb_t d = arg_ul(argv[3]);
+  mp_ptr np = gbuf_alloc(n); parse_limbs(argv[2], np, n);
+  outul(mpn_mod_1(np, n, d)); gbuf_free(np);
+}
+/* mpn_tdiv_qr nn N dn D [big]: quotient (nn-dn+1 limbs), remainder (dn limbs) */
+static void do_tdiv_qr(char **argv, int big)
+{
+  mp_size_t nn = arg_l(argv[1]), dn = arg_l(argv[3]);
+  mp_ptr np = gbuf_alloc(nn), dp = gbuf_alloc(dn), qp = gbuf_alloc(nn - dn + 1), rp = gbuf_alloc(dn);
+  parse_limbs(argv[2], np, nn); parse_limbs(argv[4], dp, dn);
+  mp_ptr n0 = gbuf_alloc(nn), d0 = gbuf_alloc(dn); MPN_COPY(n0, np, nn); MPN_COPY(d0, dp, dn);
+  mpn_tdiv_qr(qp, rp, 0, np, nn, dp, dn);
+  out_limbs(qp, nn - dn + 1); out_limbs(rp, dn);
+  (void)big;
+  if (mpn_cmp(n0, np, nn) || mpn_cmp(d0, dp, dn)) outs("SRCMOD");
+  if (!gbuf_ok(np, nn) || !gbuf_ok(dp, dn) || !gbuf_ok(qp, nn - dn + 1) || !gbuf_ok(rp, dn)) outs("REDZONE");
+  gbuf_free(np); gbuf_free(dp); gbuf_free(qp); gbuf_free(rp); gbuf_free(n0); gbuf_free(d0);
+}
+static void op_tdiv_qr(int c, char **v) { (void)c; do_tdiv_qr(v, 0); }
+/* mpn_divrem nn N dn D (D normalised, dn >= 1... the function needs dn >= 1; qxn = 0):
+   returns the high quotient limb; quotient nn-dn limbs; remainder in the low dn limbs of N */
+static void op_divrem(int argc, char **argv)
+{
+  (void)argc; mp_size_t nn = arg_l(argv[1]), dn = arg_l(argv[3]);
+  mp_ptr np = gbuf_alloc(nn), dp = gbuf_alloc(dn), qp = gbuf_alloc(nn - dn + 1);
+  parse_limbs(argv[2], np, nn); parse_limbs(argv[4], dp, dn);
+  mp_limb_t qh = mpn_divrem(qp, 0, np, nn, dp, dn);
+  qp[nn - dn] = qh;
+  out_limbs(qp, nn - dn + 1); out_limbs(np, dn);
+  if (!gbuf_ok(np, nn) || !gbuf_ok(dp, dn) || !gbuf_ok(qp, nn - dn + 1)) outs("REDZONE");
+  gbuf_free(np); gbuf_free(dp); gbuf_free(qp);
+}
+/* mpn_divexact_by3c n N : N a multiple of 3, carry-in 0 */
+static void op_divexact_by3(int argc, char **argv)
+{
+  (void)argc; mp_size_t n = arg_l(argv[1]); mp_ptr np = gbuf_alloc(n), rp = gbuf_alloc(n);
+  parse_limbs(argv[2], np, n);
+  mp_limb_t c = mpn_divexact_by3c(rp, np, n, 0);
+  out_limbs(rp, n); outul(c);
+  if (!gbuf_ok(np, n) || !gbuf_ok(rp, n)) outs("REDZONE");
+  gbuf_free(np); gbuf_free(rp);
+}
+
+/* ---- mpz level ---- */
+/* op N D alias ; alias: 0 none, 1 out1=n, 2 out1=d, 3 r=n, 4 r=d, 5 q=n r=d, 6 q=d r=n */
+enum { T, F, C };
+static void do_qr(char **argv, int rnd)
+{
+  mpz_t n, d, q, r; int al = (int)arg_l(argv[3]);
+  parse_z(argv[1], n); parse_z(argv[2], d); mpz_init(q); mpz_init(r); mpz_realloc2(q, 1); mpz_realloc2(r, 1);
+  mpz_ptr pq = q, pr = r;
+  if (al == 1) pq = n; else if (al == 2) pq = d; else if (al == 3) pr = n; else if (al == 4) pr = d;
+  else if (al == 5) { pq = n; pr = d; } else if (al == 6) { pq = d; pr = n; }
+  if (rnd == T) mpz_tdiv_qr(pq, pr, n, d); else if (rnd == F) mpz_fdiv_qr(pq, pr, n, d); else mpz_cdiv_qr(pq, pr, n, d);
+  out_z(pq); out_z(pr);
+  mpz_clear(n); mpz_clear(d); mpz_clear(q); mpz_clear(r);
+}
+static void op_tdiv_qr_z(int c, char **v) { (void)c; do_qr(v, T); }
+static void op_fdiv_qr_z(int c, char **v) { (void)c; do_qr(v, F); }
+static void op_cdiv_qr_z(int c, char **v) { (void)c; do_qr(v, C); }
+typedef void (*zfn3)(mpz_ptr, mpz_srcptr, mpz_srcptr);
+static void do_one(char **argv, zfn3 f)
+{
+  mpz_t n, d, w, n0, d0; int al = (int)arg_l(argv[3]);
+  parse_z(argv[1], n); parse_z(argv[2], d); mpz_init(w); mpz_realloc2(w, 1);
+  mpz_init_set(n0, n); mpz_init_set(d0, d);
+  mpz_ptr pw = al == 1 ? n : al == 2 ? d : w;
+  f(pw, n, d); out_z(pw);
+  if (pw != n && mpz_cmp(n, n0)) outs("SRCMOD");
+  if (pw != d && mpz_cmp(d, d0)) outs("SRCMOD");
+  mpz_clear(n); mpz_clear(d); mpz_clear(w); mpz_clear(n0); mpz_clear(d0);
+}
+#define ONE(name) static void op_##name(int c, char **v) { (void)c; do_one(v, mpz_##name); }
+ONE(tdiv_q) ONE(tdiv_r) ONE(fdiv_q) ONE(fdiv_r) ONE(cdiv_q) ONE(cdiv_r) ONE(mod) ONE(divexact)
+
+/* _ui forms: op N d alias(0/1): prints outputs then the return value */
+static void op_qr_ui(int argc, char **argv)
+{
+  (void)argc; const char *name = argv[0];
+  mpz_t n, q, r; mpir_ui d = arg_ul(argv[2]), ret = 0; int al = (int)arg_l(argv[3]);
+  parse_z(argv[1], n); mpz_init(q); mpz_init(r); mpz_realloc2(q, 1); mpz_realloc2(r, 1);
+  mpz_ptr pq = al == 1 ? n : q, pr = al == 2 ? n : r;
+  char k = name[4];                                    /* t / f / c */
+  const char *form = name + 9;                          /* after "mpz_Xdiv_" */
+  if (!strcmp(form, "qr_ui")) {
+    ret = k == 't' ? mpz_tdiv_qr_ui(pq, pr, n, d) : k == 'f' ? mpz_fdiv_qr_ui(pq, pr, n, d) : mpz_cdiv_qr_ui(pq, pr, n, d);
+    out_z(pq); out_z(pr);
+  } else if (!strcmp(form, "q_ui")) {
+    ret = k == 't' ? mpz_tdiv_q_ui(pq, n, d) : k == 'f' ? mpz_fdiv_q_ui(pq, n, d) : mpz_cdiv_q_ui(pq, n, d);
+    out_z(pq);
+  } else if (!strcmp(form, "r_ui")) {
+    ret = k == 't' ? mpz_tdiv_r_ui(pq, n, d) : k == 'f' ? mpz_fdiv_r_ui(pq, n, d) : mpz_cdiv_r_ui(pq, n, d);
+    out_z(pq);
+  } else {                                              /* "ui": remainder only */
+    ret = k == 't' ? mpz_tdiv_ui(n, d) : k == 'f' ? mpz_fdiv_ui(n, d) : mpz_cdiv_ui(n, d);
+  }
+  outul(ret);
+  mpz_clear(n); mpz_clear(q); mpz_clear(r);
+}
+static void op_mod_ui(int argc, char **argv)
+{
+  (void)argc; mpz_t n, r; parse_z(argv[1], n); mpz_init(r); mpz_realloc2(r, 1);
+  mpz_ptr pr = arg_l(argv[3]) ? n : r;
+  mpir_ui ret = mpz_mod_ui(pr, n, arg_ul(argv[2])); out_z(pr); outul(ret); mpz_clear(n); mpz_clear(r);
+}
+static void op_divexact_ui(int argc, char **argv)
+{
+  (void)argc; mpz_t n, q; parse_z(argv[1], n); mpz_init(q); mpz_realloc2(q, 1);
+  mpz_ptr pq = arg_l(argv[3]) ? n : q;
+  mpz_divexact_ui(pq, n, arg_ul(argv[2])); out_z(pq); mpz_clear(n); mpz_clear(q);
+}
+/* 2exp forms: op N cnt alias */
+static void op_2exp(int argc, char **argv)
+{
+  (void)argc; const char *name = argv[0];
+  mpz_t n, w; parse_z(argv[1], n); mpz_init(w); mpz_realloc2(w, 1);
+  mp_bitcnt_t cnt = arg_ul(argv[2]); mpz_ptr pw = arg_l(argv[3]) ? n : w;
+  char k = name[4]; char qr = name[9];
+  if (qr == 'q') { if (k == 't') mpz_tdiv_q_2exp(pw, n, cnt); else if (k == 'f') mpz_fdiv_q_2exp(pw, n, cnt); else mpz_cdiv_q_2exp(pw, n, cnt); }
+  else { if (k == 't') mpz_tdiv_r_2exp(pw, n, cnt); else if (k == 'f') mpz_fdiv_r_2exp(pw, n, cnt); else mpz_cdiv_r_2exp(pw, n, cnt); }
+  out_z(pw); mpz_clear(n); mpz_clear(w);
+}
+/* predicates */
+static void op_divisible_p(int argc, char **argv)
+{ (void)argc; mpz_t n, d; parse_z(argv[1], n); parse_z(argv[2], d); outl(mpz_divisible_p(n, d) != 0); mpz_clear(n); mpz_clear(d); }
+static void op_divisible_ui_p(int argc, char **argv)
+{ (void)argc; mpz_t n; parse_z(argv[1], n); outl(mpz_divisible_ui_p(n, arg_ul(argv[2])) != 0); mpz_clear(n); }
+static void op_divisible_2exp_p(int argc, char **argv)
+{ (void)argc; mpz_t n; parse_z(argv[1], n); outl(mpz_divisible_2exp_p(n, arg_ul(argv[2])) != 0); mpz_clear(n); }
+static void op_congruent_p(int argc, char **argv)
+{ (void)argc; mpz_t a, c, d; parse_z(argv[1], a); parse_z(argv[2], c); parse_z(argv[3], d);
+  outl(mpz_congruent_p(a, c, d) != 0); mpz_clear(a); mpz_clear(c); mpz_clear(d); }
+static void op_congruent_ui_p(int argc, char **argv)
+{ (void)argc; mpz_t a; parse_z(argv[1], a); outl(mpz_congruent_ui_p(a, arg_ul(argv[2]), arg_ul(argv[3])) != 0); mpz_clear(a); }
+static void op_congruent_2exp_p(int argc, char **argv)
+{ (void)argc; mpz_t a, c; parse_z(argv[1], a); parse_z(argv[2], c);
+  outl(mpz_congruent_2exp_p(a, c, arg_ul(argv[3])) != 0); mpz_clear(a); mpz_clear(c); }
+/* divcheck N D Q R: certificate check is done by the model; the implementation side echoes 1 */
+static void op_divcheck(int argc, char **argv) { (void)argc; (void)argv; outl(1); }
+
+const op_t ops_div[] = {
+  {"invert_limb", op_invert_limb}, {"udiv_preinv1", op_preinv1}, {"udiv_preinv2", op_preinv2},
+  {"invert_pi1", op_invert_pi1}, {"udiv_3by2", op_3by2},
+  {"mpn_divrem_1", op_divrem_1}, {"mpn_mod_1", op_mod_1}, {"mpn_tdiv_qr", op_tdiv_qr}, {"mpn_divrem", op_divrem},
+  {"mpn_divexact_by3", op_divexact_by3},
+  {"mpz_tdiv_qr", op_tdiv_qr_z}, {"mpz_fdiv_qr", op_fdiv_qr_z}, {"mpz_cdiv_qr", op_cdiv_qr_z},
+  {"mpz_tdiv_q", op_tdiv_q}, {"mpz_tdiv_r", op_tdiv_r}, {"mpz_fdiv_q", op_fdiv_q}, {"mpz_fdiv_r", op_fdiv_r},
+  {"mpz_cdiv_q", op_cdiv_q}, {"mpz_cdiv_r", op_cdiv_r}, {"mpz_mod", op_mod}, {"mpz_divexact", op_divexact},
+  {"mpz_tdiv_qr_ui", op_qr_ui}, {"mpz_fdiv_qr_ui", op_qr_ui}, {"mpz_cdiv_qr_ui", op_qr_ui},
+  {"mpz_tdiv_q_ui", op_qr_ui}, {"mpz_fdiv_q_ui", op_qr_ui}, {"mpz_cdiv_q_ui", op_qr_ui},
+  {"mpz_tdiv_r_ui", op_qr_ui}, {"mpz_fdiv_r_ui", op_qr_ui}, {"mpz_cdiv_r_ui", op_qr_ui},
+  {"mpz_tdiv_ui", op_qr_ui}, {"mpz_fdiv_ui", op_qr_ui}, {"mpz_cdiv_ui", op_qr_ui},
+  {"mpz_mod_ui", op_mod_ui}, {"mpz_divexact_ui", op_divexact_ui},
+  {"mpz_tdiv_q_2exp", op_2exp}, {"mpz_fdiv_q_2exp", op_2exp}, {"mpz_cdiv_q_2exp", op_2exp},
+  {"mpz_tdiv_r_2exp", op_2exp}, {"mpz_fdiv_r_2exp", op_2exp}, {"mpz_cdiv_r_2exp", op_2exp},
+  {"mpz_divisible_p", op_divisible_p}, {"mpz_divisible_ui_p", op_divisible_ui_p}, {"mpz_divisible_2exp_p", op_divisible_2exp_p},
+  {"mpz_congruent_p", op_congruent_p}, {"mpz_congruent_ui_p", op_congruent_ui_p}, {"mpz_congruent_2exp_p", op_congruent_2exp_p},
+  {"divcheck", op_divcheck},
+  {NULL, NULL}
+};
